@@ -419,7 +419,8 @@ def finish(pid, tier, seed, t0, spec, proof, workers, corr, extra_cov=None, buil
     if extra_cov:
         cov.update(extra_cov)
     ev = {
-        "property_id": pid, "tier": tier, "seed": seed, "level": "proof", "coverage": cov,
+        "property_id": pid, "tier": tier, "seed": seed,
+        "level": "proof" if proof["obligations"] else "exploration", "coverage": cov,
         "assumptions": spec["assumptions"], "wall_s": round(time.time() - t0, 1),
         "violations": len(new_violations) + (1 if exit_code and not new_violations else 0),
     }
